@@ -819,6 +819,12 @@ func (d *refreshDebouncer) debounce() {
 func (d *refreshDebouncer) refreshNow() <-chan error {
 	d.mu.Lock()
 	defer d.mu.Unlock()
+	if d.stopped {
+		// nobody is left to run the refresh: report it like a refresh cut short by stop
+		ch := make(chan error)
+		close(ch)
+		return ch
+	}
 	if d.broadcaster == nil {
 		d.broadcaster = newErrorBroadcaster()
 		select {
@@ -882,7 +888,8 @@ func (d *refreshDebouncer) stop() {
 	d.stopped = true
 	d.mu.Unlock()
 	verifYield("rd.stop", nil, 0)
-	d.quit <- struct{}{} // sync with flusher
+	// wake the flusher, it exits when it sees stopped. Do not hand it a value: if it
+	// was woken by a refresh request it sees stopped and exits without reading quit.
 	close(d.quit)
 }
 
